@@ -343,6 +343,25 @@ def pool(contract, seed=0, limit=4000):
         groups = [[String(), Integer()], [Integer(), Number()], [Element(minimum=1), Element(maximum=3)], [String()], [Element(), Element()]]
         yield from cap((fn, (g, v, UNBOUND_PROPERTY, m)) for g in groups for v in vals[::2] for m in ("anyOf", "oneOf", "allOf"))
         return
+    if key.endswith(":_compose_elements"):
+        import statham.schema.elements as E_
+        from statham.schema.elements import Element, Integer, String, Nothing
+        K = getattr(E_, contract.inst) if contract.inst else E_.AllOf
+        shared = String(default="s")
+        groups = [[], [String()], [shared], [Integer(), String()], [Element(), Element(), Nothing()], [shared, shared], [Element(default=0)], [Element(minimum=1), Element(maximum=3), Integer()]]
+        yield from cap((fn, (K, list(g))) for g in groups)
+        return
+    if key.endswith("Element.__init__") and cls_name == "Element":
+        from statham.schema.elements import Element, String
+        from statham.schema.property import Property
+        from statham.schema.constants import NotPassed
+        kws = [{}, {"default": 0}, {"minimum": 1, "maximum": 2}, {"items": String(), "additionalItems": False}, {"properties": {"a": Property(String())}}, {"required": ["a"], "description": "d"},
+               {"enum": [1, 2], "const": 1, "uniqueItems": True}, {"patternProperties": {"^a": String()}, "additionalProperties": False, "propertyNames": String()},
+               {"dependencies": {"a": ["b"]}, "minProperties": 1, "maxProperties": 2, "format": "uri", "pattern": "^a", "minLength": 1, "maxLength": 2, "minItems": 0, "maxItems": 3,
+                "contains": String(), "multipleOf": 2, "exclusiveMinimum": 0, "exclusiveMaximum": 9}]
+        import functools
+        yield from cap((functools.partial(fn, **kw), (Element.__new__(Element),)) for kw in kws)      # partial keeps the signature the monitor binds against
+        return
     if cls_name == "Not" and meth == "construct":
         yield from cap((fn, (mk(), v, UNBOUND_PROPERTY)) for mk in instances_of("Not") for v in vals)
         return
